@@ -60,6 +60,7 @@ type HarnessCfg struct {
 	NoMerge     bool // disable ite-merging of pure diamonds (debugging / cross-validation)
 	KeepWitnesses bool // keep a model for every satisfied cover
 	Validate      int // >0: replay up to this many cover witnesses per label on the native build (model validation)
+	NoValidate    string // reason why witnesses of this harness cannot be realised natively (stub answers that no real input produces, schedules, faults)
 	Entry       func(in *Interp, p *Path) // engine-level harness body (instead of a Go harness function)
 	PanicIsViol bool // a Go panic in the code under test counts as violation label "panic"
 }
